@@ -42,7 +42,7 @@ theorem ofU8_take (n : Nat) (l : List UInt8) : ofU8 (l.take n) = (ofU8 l).take n
 /-- the byte-level `decompress_deflate_stream` model ends in Ok or Err on every input below 512 MiB:
     the analysis ends in Ok or Err (`public_outcomes`), every operation it emits is well formed
     (`analysis_facts`), hence the bool coder accepts them (`bytes_roundtrip`) -/
-theorem decompressBytes_outcomes (d : List UInt8) (hd : d.length < 2 ^ 29) :
+theorem decompressBytes_outcomes (d : List UInt8) (hd : d.length < 2 ^ 61) :
     (∃ x, decompressBytes Est.estimate Chains.pred false d = .ok x) ∨
       decompressBytes Est.estimate Chains.pred false d = .error .err := by
   rcases public_outcomes false d with ⟨r, h⟩ | h
@@ -80,7 +80,7 @@ theorem libAnalyze_ok (d : Bytes) (r : Res) (h : libOracle.analyze d = .ok r) :
     exact ⟨plain, bytes, q, rfl, rfl⟩
 
 /-- reconstruction from what the analysis returned: exactly the consumed prefix -/
-theorem libRecompress_analyzed (d : Bytes) (hd : d.length < 2 ^ 29) (plain : Array Nat)
+theorem libRecompress_analyzed (d : Bytes) (hd : d.length < 2 ^ 61) (plain : Array Nat)
     (bytes : Array UInt8) (n : Nat) (q : Params)
     (h : decompressBytes Est.estimate Chains.pred false (toU8 d) = .ok (plain, bytes, n, q)) :
     libOracle.recompress plain.toList (ofU8 bytes.toList) = .ok (ofU8 ((toU8 d).take n)) := by
@@ -101,7 +101,7 @@ theorem lib_verified_of_error (d : Bytes) (e : Fail)
   rw [ha]
   rfl
 
-theorem lib_verified_of_ok (d : Bytes) (hd : d.length < 2 ^ 29) (plain : Array Nat)
+theorem lib_verified_of_ok (d : Bytes) (hd : d.length < 2 ^ 61) (plain : Array Nat)
     (bytes : Array UInt8) (n : Nat) (q : Params)
     (h : decompressBytes Est.estimate Chains.pred false (toU8 d) = .ok (plain, bytes, n, q)) :
     libOracle.analyze d = .ok ⟨plain.toList, ofU8 bytes.toList, n⟩ ∧
@@ -124,7 +124,7 @@ theorem lib_verified_of_ok (d : Bytes) (hd : d.length < 2 ^ 29) (plain : Array N
 /-- WHAT THE SCANNER'S ACCEPTANCE TEST IS for the concrete oracle, on any candidate below 512 MiB:
     rejected with Err, or the analysis returned Ok and the result is accepted iff the candidate's
     consumed prefix consists of bytes (always the case for a slice of a file) -/
-theorem lib_verified_eq (d : Bytes) (hd : d.length < 2 ^ 29) :
+theorem lib_verified_eq (d : Bytes) (hd : d.length < 2 ^ 61) :
     libOracle.verified d = .error .err ∨
     ∃ plain bytes n q,
       decompressBytes Est.estimate Chains.pred false (toU8 d) = .ok (plain, bytes, n, q) ∧
@@ -141,14 +141,14 @@ theorem lib_verified_eq (d : Bytes) (hd : d.length < 2 ^ 29) :
     exact (lib_verified_of_error d _ h).2
 
 /-- the acceptance test of the concrete oracle does not panic (candidates below 512 MiB) -/
-theorem lib_no_panic_lt (d : Bytes) (hd : d.length < 2 ^ 29) (m : String) :
+theorem lib_no_panic_lt (d : Bytes) (hd : d.length < 2 ^ 61) (m : String) :
     libOracle.verified d ≠ .error (.panic m) := by
   rcases lib_verified_eq d hd with h | ⟨plain, bytes, n, q, _, _, _, h⟩
   · rw [h]; intro hc; cases hc
   · rw [h]; split <;> (intro hc; cases hc)
 
 /-- … nor does it run out of any loop bound of the model -/
-theorem lib_no_fuel_lt (d : Bytes) (hd : d.length < 2 ^ 29) :
+theorem lib_no_fuel_lt (d : Bytes) (hd : d.length < 2 ^ 61) :
     libOracle.verified d ≠ .error .fuel := by
   rcases lib_verified_eq d hd with h | ⟨plain, bytes, n, q, _, _, _, h⟩
   · rw [h]; intro hc; cases hc
@@ -184,7 +184,7 @@ theorem lib_plain_size (d : Bytes) (r : Res) (h : libOracle.verified d = .ok r) 
 /-- on a byte candidate below 512 MiB the reconstruction check always passes: the concrete
     oracle accepts exactly when the analysis returns Ok (what `verify = true` would also return,
     `public_bytes_verify_same`) -/
-theorem lib_verified_bytes (d : Bytes) (hb : ∀ b ∈ d, b < 256) (hd : d.length < 2 ^ 29) :
+theorem lib_verified_bytes (d : Bytes) (hb : ∀ b ∈ d, b < 256) (hd : d.length < 2 ^ 61) :
     libOracle.verified d = libOracle.analyze d := by
   cases hx : decompressBytes Est.estimate Chains.pred false (toU8 d) with
   | error e =>
